@@ -99,6 +99,27 @@ Theorem c19_py_init_chain_location_free : forall root root' d,
 Proof. exact py_init_dirs_location_free. Qed.
 Print Assumptions c19_py_init_chain_location_free.
 
+(** global state: whatever compiles ran before in the same process, generation starts from the
+    globals a fresh process would have *)
+Theorem c19_compile_sees_fresh_globals : forall hist o generated,
+  fst (compile_globals o generated (run_compiles hist globals_init)) = globals_set o globals_init.
+Proof. exact compile_sees_fresh_globals. Qed.
+Print Assumptions c19_compile_sees_fresh_globals.
+
+(** ... and, read off the source on every run: every package-level variable of compiler/** that
+    any function assigns belongs to package globals and Reset() restores it to its initialiser *)
+Theorem c19_globals_reset_complete :
+  forallb (fun d => restores d globals_reset) globals_decl = true /\
+  forallb mutable_is_reset mutable_globals = true.
+Proof. exact globals_reset_complete. Qed.
+Print Assumptions c19_globals_reset_complete.
+
+(** the json generator's collectFrugals does not depend on the layout of ParsedIncludes *)
+Theorem c19_collect_frugals_order_free : forall fuel m m' used acc,
+  same_view fuel m m' -> collect_frugals fuel m used acc = collect_frugals fuel m' used acc.
+Proof. exact collect_frugals_view_free. Qed.
+Print Assumptions c19_collect_frugals_order_free.
+
 (** non-vacuity *)
 Example c19_sites_nonvacuous :
   (length (filter ms_reach map_sites) >= 3)%nat /\
